@@ -516,6 +516,36 @@ def _cast_idiom2(ctx, s2):
                 problems.append(f"dtype inferred from `{show(dt[2][0], it)[:40]}`, not from the result buffer")
             continue
         cd = const_dtype(dt)
+        if cd is not None and isinstance(cd[1], tuple) and cd[1][0] == "call" and cd[1][1] == ("name", "any") and len(cd[1][2]) == 1:
+            # nullable=any(e is None for e in <source>): the flag computed from the SOURCE elements instead of being tracked in the
+            # conversion loop.  The same obligation: every None put into the buffer is put there for a source element that is None
+            # (then the flag is True whenever the buffer holds such a None)
+            from ..symx import single_element as _single
+            from ..symx import flatten_conds as _fcs
+            se = _single(it, cd[1][2][0])
+            src = None
+            if se is not None and len(se[0]) == 1 and not se[1]:
+                srcit = it.loops[se[0][0]].iter
+                if se[2] == ("cmp", "Is", ("elem", srcit, se[0][0]), SNONE):
+                    src = strip_seq(it, srcit)
+            if src is None:
+                raise AnalysisError(f"cast: nullable flag `{show(cd[1], it)[:60]}` is not any(<element> is None for <element> in <source>)")
+            for e in elements(it, buf):
+                v = e.value if e.kind == "elem" else (e.term[2][0] if e.kind == "call" and e.term[2] else None)
+                if v != SNONE:
+                    continue
+                for_none_source = False
+                for L2 in e.loops:
+                    lp2 = it.loops[L2]
+                    cands = [x for x in (lp2.iter, lp2.domain) if x is not None]
+                    for c in cands:
+                        if strip_seq(it, c) == src and any(pol and t[0] == "cmp" and t[1] == "Is" and t[3] == SNONE and t[2][0] == "elem"
+                                                           and t[2][2] == L2 for t, pol in _fcs(e.conds)):
+                            for_none_source = True
+                if not for_none_source:
+                    problems.append(f"a None is put into the result buffer for a source element that is not None, while the flag "
+                                    f"`{show(cd[1], it)[:50]}` looks at the source only: the result would hold None under a non-nullable dtype")
+            continue
         if cd is None or not isinstance(cd[1], tuple) or cd[1][0] not in ("after", "loopvar"):
             raise AnalysisError(f"cast: dtype `{show(dt, it)[:60]}` is not DataType(<target>, nullable=<flag set in the element loop>)")
         _, flag, L = cd[1]
